@@ -171,9 +171,19 @@ def main(argv):
         known = report.load_known()
         hits, new = report.split_known(prop, rec.failed, known)
         controls = []
-        if tier == 'thorough':
+        if tier == 'thorough' and not new:
             controls = run_controls(prop, a.repo, _failed_keys(rec))
-            bad = [c for c in controls if c['status'] != 'ok']
+            skipped = [c for c in controls if c['status'] == 'anchor-lost']
+            for c in skipped:
+                # the tree differs from the one the control was written
+                # for: the control cannot be applied, which says nothing
+                # about the property
+                print('CONTROL-SKIPPED %s %s' % (c['id'], c.get('detail')))
+            if controls and len(skipped) * 2 > len(controls):
+                raise model.AnalysisError(
+                    'more than half of the controls lost their anchors')
+            bad = [c for c in controls
+                   if c['status'] not in ('ok', 'anchor-lost')]
             if bad:
                 for c in bad:
                     print('CONTROL-FAILED %s %s %s' % (
@@ -196,7 +206,9 @@ def main(argv):
             print('  %-8s instances %d (floor %d)' % (
                 r, rec.instances.get(r, 0), fl))
         if tier == 'thorough':
-            print('  controls: %d ok' % len(controls))
+            print('  controls: %d ok, %d skipped' % (
+                len([c for c in controls if c['status'] == 'ok']),
+                len([c for c in controls if c['status'] != 'ok'])))
         for o, k in hits:
             print('KNOWN-FINDING: property=%s %s %s — %s' % (
                 prop, o.rule, o.construct, k.get('what', '')))
